@@ -8,8 +8,9 @@
 // function eval/1 (Interp.Eval pushes one context per evaluation, the nested one with the enclosing evaluation's
 // context as parent):
 //
-//	level j < depth:  "s<j>", (try eval(<level j+1>) catch "c<j+1>:\(.)"), "a<j>", (range(N) | select(. < 0)), "z<j>"
-//	level depth:      "s<depth>", (range(N) | select(. < 0)), "z<depth>"
+//	level j < depth:  Q, "s<j>", (try eval(<level j+1>) catch "c<j+1>:\(.)"), Q, "a<j>", (range(N) | select(. < 0)), "z<j>"
+//	level depth:      Q, "s<depth>", (range(N) | select(. < 0)), "z<depth>"
+//	Q = (eval("1, 2") | empty)    a short nested evaluation that finishes normally before the level goes on
 //
 // Every level reports on stdout when it starts (s), when the evaluation nested in it ended with an error (c) and when
 // it goes on afterwards (a), then runs "forever".  The virtual stdout delivers an interrupt through OS.InterruptChan()
@@ -74,13 +75,14 @@ func (o *vos) History() ([]string, error)                        { return nil, n
 func (o *vos) Readline(opts interp.ReadlineOpts) (string, error) { return "", io.EOF }
 
 const forever = `(range(1000000000) | select(. < 0))`
+const short = `(eval("1, 2") | empty)`
 
 func program(level, depth int) string {
 	if level == depth {
-		return fmt.Sprintf(`"s%d", %s, "z%d"`, level, forever, level)
+		return fmt.Sprintf(`%s, "s%d", %s, "z%d"`, short, level, forever, level)
 	}
 	inner, _ := json.Marshal(program(level+1, depth))
-	return fmt.Sprintf(`"s%d", (try eval(%s) catch "c%d:\(.)"), "a%d", %s, "z%d"`, level, inner, level+1, level, forever, level)
+	return fmt.Sprintf(`%s, "s%d", (try eval(%s) catch "c%d:\(.)"), %s, "a%d", %s, "z%d"`, short, level, inner, level+1, short, level, forever, level)
 }
 
 type event struct {
@@ -112,7 +114,7 @@ func (w *lineWriter) Write(p []byte) (int, error) {
 }
 
 // one run; stopAt > 0: call Interp.Stop instead of the stopAt-th interrupt
-func runNested(out *kit.Out, depth int, stopAt int, yield int) {
+func runNested(out *kit.Out, depth int, stopAt int, yield int) (aborted bool) {
 	o := &vos{args: []string{"fq", "-n", "-r", program(1, depth)}, stderr: &bytes.Buffer{}, intr: make(chan struct{})}
 	top, abort := context.WithCancel(context.Background())
 	defer abort()
@@ -212,9 +214,20 @@ func runNested(out *kit.Out, depth int, stopAt int, yield int) {
 	go func() { done <- ip.Main(top, o.Stdout(), "verif") }()
 	select {
 	case err = <-done:
-	case <-time.After(60 * time.Second):
-		fmt.Fprintf(os.Stderr, "HANG: interp nested run depth=%d stopAt=%d did not end; stderr=%q\n", depth, stopAt, o.stderr.String())
-		os.Exit(4)
+	case <-time.After(20 * time.Second):
+		// the delivered interrupt/stop had no visible effect: end the run from outside and log what was observed
+		abort()
+		select {
+		case err = <-done:
+		case <-time.After(40 * time.Second):
+			fmt.Fprintf(os.Stderr, "HANG: interp nested run depth=%d stopAt=%d did not end; stderr=%q\n", depth, stopAt, o.stderr.String())
+			os.Exit(4)
+		}
+		if pending != "" {
+			emit(pending, 0, 0) // cancelled-vector unchanged: the specification rejects it
+		}
+		ip.Stop()
+		return true
 	}
 	if err == nil || pushed != depth {
 		kit.Fatalf("nested run depth=%d: Main returned err=%v after %d levels started (driver program broken?) stderr=%q", depth, err, pushed, o.stderr.String())
@@ -223,13 +236,15 @@ func runNested(out *kit.Out, depth int, stopAt int, yield int) {
 	if stopAt == 0 || stopAt > nint {
 		ip.Stop()
 	}
+	return false
 }
 
 // storm: the evaluating goroutine starts and finishes thousands of nested evaluations (Interp.Eval -> Push / pop) while
 // another goroutine, not synchronised with it, makes the trigger function return.  Whatever an interrupt hits (a short
-// nested evaluation whose error is caught, or the command line evaluation itself) the run must end without a crash.
+// nested evaluation whose error is caught, or the command line evaluation itself) the run must not crash, and as the
+// program ends in an endless loop it must be ended by one of the interrupts (an interrupt is never lost).
 func runStorm(seed int64) (interrupts int) {
-	prog := `"start", ([range(1500) | try (eval("1, 2") | select(. == 1)) catch "x"] | length)`
+	prog := `"start", ([range(1500) | try (eval("1, 2") | select(. == 1)) catch "x"] | length), ` + forever
 	o := &vos{args: []string{"fq", "-n", "-r", prog}, stderr: &bytes.Buffer{}, intr: make(chan struct{})}
 	started := make(chan struct{})
 	o.stdout = &lineWriter{fn: func(line string) {
@@ -268,7 +283,7 @@ func runStorm(seed int64) (interrupts int) {
 	go func() { done <- ip.Main(context.Background(), o.Stdout(), "verif") }()
 	select {
 	case <-done:
-	case <-time.After(120 * time.Second):
+	case <-time.After(45 * time.Second):
 		fmt.Fprintf(os.Stderr, "HANG: interp storm run did not end; stderr=%q\n", o.stderr.String())
 		os.Exit(4)
 	}
@@ -299,6 +314,7 @@ func main() {
 	runs := kit.Atoi(os.Args[2])
 	out := kit.NewOut(os.Args[3])
 	rng := rand.New(rand.NewSource(kit.Seed()))
+	aborted := 0
 	for r := 0; r < runs; r++ {
 		depth := 1 + r%4
 		stopAt := 0
@@ -306,7 +322,11 @@ func main() {
 			stopAt = 1 + rng.Intn(depth)
 		}
 		out.Emit(event{Op: "reset", Got: []int{}, W: []int{}})
-		runNested(out, depth, stopAt, rng.Intn(50))
+		if runNested(out, depth, stopAt, rng.Intn(50)) {
+			if aborted++; aborted >= 3 {
+				break // every such run costs 20 s and the specification rejects each of them: enough evidence
+			}
+		}
 	}
 	out.Close()
 	fmt.Println("interp runs done", runs)
